@@ -15,10 +15,6 @@ type err_kind =
 | TypeError
 
 type panic_site =
-| PSPopUnwrap
-| PSLimitUnwrap
-| PSOffsetUnwrap
-| PSStripRange
 | PSStripBoundary
 | PSFloatUnwrap
 
@@ -560,31 +556,38 @@ let is_char_boundary s i = match i with
       | None -> false)
    | Gt -> false)
 
-(** val is_quote : coq_N -> bool **)
+(** val last_byte : bytes -> coq_N option **)
 
-let is_quote b =
-  (||)
-    (N.eqb b (Npos (Coq_xO (Coq_xO (Coq_xO (Coq_xO (Coq_xO (Coq_xI
-      Coq_xH))))))))
-    (N.eqb b (Npos (Coq_xO (Coq_xI (Coq_xO (Coq_xO (Coq_xO Coq_xH)))))))
+let rec last_byte = function
+| [] -> None
+| b :: r -> (match r with
+             | [] -> Some b
+             | _ :: _ -> last_byte r)
 
-(** val starts_with_quote : bytes -> bool **)
+(** val quoted_by : coq_N -> bytes -> bool **)
 
-let starts_with_quote = function
-| [] -> false
-| b :: _ -> is_quote b
+let quoted_by q s =
+  (&&)
+    ((&&) (PeanoNat.Nat.leb (S (S O)) (length s))
+      (match s with
+       | [] -> false
+       | b :: _ -> N.eqb b q))
+    (match last_byte s with
+     | Some b -> N.eqb b q
+     | None -> false)
 
 (** val strip_quotes : bytes -> bytes result **)
 
 let strip_quotes s =
-  if starts_with_quote s
+  if (||)
+       (quoted_by (Npos (Coq_xO (Coq_xO (Coq_xO (Coq_xO (Coq_xO (Coq_xI
+         Coq_xH))))))) s)
+       (quoted_by (Npos (Coq_xO (Coq_xI (Coq_xO (Coq_xO (Coq_xO Coq_xH))))))
+         s)
   then let n = length s in
-       if PeanoNat.Nat.ltb n (S (S O))
-       then Panic PSStripRange
-       else if (&&) (is_char_boundary s (S O))
-                 (is_char_boundary s (sub n (S O)))
-            then Val (firstn (sub n (S (S O))) (skipn (S O) s))
-            else Panic PSStripBoundary
+       if (&&) (is_char_boundary s (S O)) (is_char_boundary s (sub n (S O)))
+       then Val (firstn (sub n (S (S O))) (skipn (S O) s))
+       else Panic PSStripBoundary
   else Val s
 
 (** val map_binary_operator : binop -> func2 result **)
@@ -756,7 +759,7 @@ let rec convert_expr = function
   bind (map_unary_operator op) (fun f ->
     bind (convert_expr x) (fun a -> Val (Func1 (f, a))))
 | EValue v -> bind (get_raw_val v) (fun c -> Val (Const c))
-| EIdent v -> bind (strip_quotes v) (fun n -> Val (ColName n))
+| EIdent v -> Val (ColName v)
 | ENested x -> convert_expr x
 | EFunction (name, args) ->
   let one = fun mk ->
@@ -934,7 +937,7 @@ let get_limit = function
       | VNumber (text, _) ->
         (match parse_u64 text with
          | Some v0 -> Val v0
-         | None -> Panic PSLimitUnwrap)
+         | None -> Err ParseError)
       | _ -> Err NotImplemented)
    | _ -> Err NotImplemented)
 | None -> Val u64_max
@@ -949,7 +952,7 @@ let get_offset = function
       | VNumber (text, _) ->
         (match parse_u64 text with
          | Some v0 -> Val v0
-         | None -> Panic PSOffsetUnwrap)
+         | None -> Err ParseError)
       | _ -> Err ParseError)
    | _ -> Err ParseError)
 | None -> Val N0
@@ -963,7 +966,7 @@ let parse_query = function
   if PeanoNat.Nat.ltb (S O) (length stmts)
   then Err ParseError
   else (match stmts with
-        | [] -> Panic PSPopUnwrap
+        | [] -> Err ParseError
         | s :: _ ->
           (match s with
            | StQuery (b, ob, lc) ->
@@ -1212,26 +1215,12 @@ let normalize q =
 let parse_and_normalize p =
   bind (parse_query p) normalize
 
-type slice_outcome =
-| Slice of coq_N * coq_N
-| SlicePanic
-
-(** val output_slice : coq_N -> coq_N -> coq_N -> slice_outcome **)
+(** val output_slice : coq_N -> coq_N -> coq_N -> coq_N * coq_N **)
 
 let output_slice limit offset len =
-  if N.ltb len offset
-  then SlicePanic
-  else Slice (offset, (N.min limit (N.sub len offset)))
+  let o = N.min offset len in (o, (N.min limit (N.sub len o)))
 
-type sum_outcome =
-| Sum of coq_N
-| SumPanic
+(** val combined_limit : coq_N -> coq_N -> coq_N **)
 
-(** val combined_limit : bool -> coq_N -> coq_N -> sum_outcome **)
-
-let combined_limit checked limit offset =
-  if N.ltb u64_max (N.add limit offset)
-  then if checked
-       then SumPanic
-       else Sum (N.modulo (N.add limit offset) (N.add u64_max (Npos Coq_xH)))
-  else Sum (N.add limit offset)
+let combined_limit limit offset =
+  N.min (N.add limit offset) u64_max
